@@ -71,7 +71,7 @@ def data_index_state(ctx, rule='C10-R1'):
             st = walk(t[1], guard, lphi_state)
             ops_seen.append(t[2])
             name, kws = t[2], dict(t[4])
-            rowdrop = name == 'drop' and kws.get('axis', C(0)) in (C(0), C('index'))
+            rowdrop = name == 'drop' and kws.get('axis', C(0)) in (C(0), C('index')) and 'columns' not in kws
             if rowdrop:
                 need('call', 'label-based row drop .drop(<labels>)', st, guard, None, None)
             if name == 'reset_index':
